@@ -19,6 +19,31 @@ type deadlockSentinel struct{ detail string }
 // hookTap, when set, sees every hook event before the scheduler (used by the sync-path deadlock monitor).
 var hookTap func(ev simdjson.SimEvent, h simdjson.SimHandle, arg int)
 
+// syncDeadlockTap returns a hook tap for parses that run directly on the calling goroutine: on the
+// synchronous path a send into a full channel or a blocking receive from an empty one can never complete.
+// The tap panics with a deadlockSentinel instead of letting the process hang.
+func syncDeadlockTap() func(ev simdjson.SimEvent, h simdjson.SimHandle, arg int) {
+	base := simdjson.SimProbeSnapshot()
+	return func(ev simdjson.SimEvent, h simdjson.SimHandle, arg int) {
+		if ev != simdjson.SimPSend && ev != simdjson.SimCRecv {
+			return
+		}
+		now := simdjson.SimProbeSnapshot()
+		if now[1] == base[1] { // sync_path probe did not fire: concurrent path, the other stage exists
+			return
+		}
+		_, _, capc, lenc := simdjson.SimRing(h)
+		if ev == simdjson.SimPSend && capc > 0 && lenc >= capc {
+			panic(deadlockSentinel{fmt.Sprintf("sync path: producer about to send into a full channel (%d/%d) with no consumer running", lenc, capc)})
+		}
+		// on the sync path stage 1 has finished before anything is received: a blocking receive from an
+		// empty channel can never be satisfied (arg 3 is the non-blocking drain after a stage-2 failure)
+		if ev == simdjson.SimCRecv && arg != 3 && capc > 0 && lenc == 0 {
+			panic(deadlockSentinel{"sync path: consumer about to receive from an empty channel after the producer has finished"})
+		}
+	}
+}
+
 type docCase struct {
 	r        *Run
 	cfg      parseCfg
@@ -40,25 +65,7 @@ func (dc *docCase) parseGuarded(in []byte) (pj *simdjson.ParsedJson, perr error,
 	if g != nil {
 		buf = g.place(in, dc.r.C.Intn("guardend", 4) != 0)
 	}
-	base := simdjson.SimProbeSnapshot()
-	hookTap = func(ev simdjson.SimEvent, h simdjson.SimHandle, arg int) {
-		if ev != simdjson.SimPSend && ev != simdjson.SimCRecv {
-			return
-		}
-		now := simdjson.SimProbeSnapshot()
-		if now[1] == base[1] { // sync_path probe did not fire: concurrent path, the other stage exists
-			return
-		}
-		_, _, capc, lenc := simdjson.SimRing(h)
-		if ev == simdjson.SimPSend && capc > 0 && lenc >= capc {
-			panic(deadlockSentinel{fmt.Sprintf("sync path: producer about to send into a full channel (%d/%d) with no consumer running", lenc, capc)})
-		}
-		// on the sync path stage 1 has finished before anything is received: a blocking receive from an
-		// empty channel can never be satisfied (arg 3 is the non-blocking drain after a stage-2 failure)
-		if ev == simdjson.SimCRecv && arg != 3 && capc > 0 && lenc == 0 {
-			panic(deadlockSentinel{"sync path: consumer about to receive from an empty channel after the producer has finished"})
-		}
-	}
+	hookTap = syncDeadlockTap()
 	defer func() { hookTap = nil }()
 	err = safely(func() error {
 		var ru *simdjson.ParsedJson
